@@ -292,8 +292,17 @@ class BuiltinMixin:
             return [(st, v)]
         if isinstance(v, VInt):
             r = z3.If(v.t < 0, z3.Concat(z3.StringVal("-"), z3.IntToStr(-v.t)), z3.IntToStr(v.t))
+            outs = []
+            if self.config and getattr(self.config, "int_str_limit", False):
+                lim = self.int_str_limit_const(st)
+                big = z3.Or(v.t >= lim, v.t <= -lim)
+                s_big = st.fork()
+                s_big.assume(big)
+                if feasible(s_big.pc):
+                    outs.append((s_big, Raised(VExc("ValueError", (VStr(z3.StringVal("Exceeds the limit (4300 digits) for integer string conversion")),)))))
+                st.assume(z3.Not(big))
             st.assume(z3.Function("decimal_wellformed", S, B)(r))  # str(int) is valid Decimal text
-            return [(st, VStr(r))]
+            return outs + [(st, VStr(r))]
         if isinstance(v, VBool):
             return [(st, VStr(z3.If(v.t, z3.StringVal("True"), z3.StringVal("False"))))]
         if isinstance(v, VNone):
@@ -307,13 +316,23 @@ class BuiltinMixin:
         if isinstance(v, (VU, VOpaque)):
             t = v.t
             f = repr_of_u if conv == "repr" else str_of_u
+            outs = []
+            if self.config and getattr(self.config, "int_str_limit", False):
+                lim = self.int_str_limit_const(st)
+                big = z3.And(U.is_int(t), z3.Or(U.i(t) >= lim, U.i(t) <= -lim))
+                s_big = st.fork()
+                s_big.assume(big)
+                if feasible(s_big.pc):
+                    outs.append((s_big, Raised(VExc("ValueError", (VStr(z3.StringVal("Exceeds the limit (4300 digits) for integer string conversion")),)))))
+                st = st.fork()
+                st.assume(z3.Not(big))
             term = z3.If(
                 U.is_str(t), U.s(t) if conv == "str" else z3.Function("repr_str", S, S)(U.s(t)),
                 z3.If(U.is_int(t), z3.If(U.i(t) < 0, z3.Concat(z3.StringVal("-"), z3.IntToStr(-U.i(t))), z3.IntToStr(U.i(t))),
                 z3.If(U.is_bool(t), z3.If(U.b(t), z3.StringVal("True"), z3.StringVal("False")),
                 z3.If(U.is_none(t), z3.StringVal("None"), f(t)))),
             )
-            return [(st, VStr(term))]
+            return outs + [(st, VStr(term))]
         if isinstance(v, VRef):
             h = st.deref(v)
             if isinstance(h, HObj) and h.cls[0].startswith("liquid"):
@@ -335,6 +354,11 @@ class BuiltinMixin:
         if isinstance(v, (VTuple, VClass, VExcClass, VFunc, VBound, VBuiltin, VSeq)):
             return [(st, VStr(fresh("str", S)))]
         raise Unsupported(f"str() of {type(v).__name__}")
+
+    def int_str_limit_const(self, st):
+        lim = z3.Int("INT_STR_LIMIT")
+        st.assume(lim >= 10**18)
+        return lim
 
     def b_str(self, st, args, kwargs):
         if not args:
